@@ -18,6 +18,7 @@ holds up to the bound (MC_DeltaBuffers_k4_*.cfg).
 import json
 import os
 import random
+import time
 
 from . import common, delta_util
 from .common import log
@@ -105,7 +106,7 @@ def verdict_problems(desc, obs):
 def trace_of(desc, obs):
     """input / hook events / outcome of one run; a crash or panic leaves no outcome line."""
     run = [{"ev": "input", "len": obs.get("len", -1), "wf": bool(obs.get("wf", desc.get("wf", False))),
-            "badlex": bool(obs.get("badlex", desc.get("badlex", False))), "case": case_key(desc)}]
+            "badlex": bool(obs.get("badlex", desc.get("badlex", False))), "light": "evlight" in obs, "case": case_key(desc)}]
     run += obs.get("ev") or []
     if obs.get("o") in ("accepted", "rejected"):
         run.append({"ev": "outcome", "ok": obs["o"] == "accepted", "codes": obs.get("codes") or []})
@@ -147,6 +148,7 @@ def run(rep, tier, seed, selftest):
         raise common.ToolError("DeltaSeq emitted no sequences / contexts")
     log("[tlc] DeltaSeq/%s: %d token sequences x %d contexts, %.1fs" % (SEQ[tier], len(rs.cases), len(ctxs), rs.wall))
     tlc_states += rs.distinct
+    log("[time] %.0fs" % (time.time() - rep.t0))
     d_desc = [{"g": "toks", "toks": c["toks"], "ctx": "top", "wf": c["wf"], "badlex": c["bad"] > 0} for c in derivs]
     s_desc = [{"g": "toks", "toks": c["toks"], "ctx": ctx, "badlex": c["badlex"]} for c in rs.cases for ctx in ctxs]
     emitted = d_desc + s_desc
@@ -191,6 +193,7 @@ def run(rep, tier, seed, selftest):
                 rep.note_drift("%s: %s" % (" ".join(c["toks"]), "; ".join(d)))
             else:
                 agree += 1
+    log("[time] %.0fs" % (time.time() - rep.t0))
     log("[replay] %d emitted inputs (%d derivations, %d sequences x contexts) run on the real front end; "
         "model agreement on derivations %d/%d" % (len(emitted), len(derivs), len(s_desc), agree, len(derivs)))
     # ---- 3. random families ----------------------------------------------------------------------
@@ -209,6 +212,7 @@ def run(rep, tier, seed, selftest):
         fam = by_family.setdefault(desc["g"], {})
         fam[o.get("o")] = fam.get(o.get("o"), 0) + 1
     log("[random] %d inputs: %s" % (len(rdesc), json.dumps(by_family)))
+    log("[time] %.0fs" % (time.time() - rep.t0))
     # ---- 4. report failures, one witness (the smallest input) per failure signature ------------------
     for (kind, sig), items in sorted(failures.items()):
         items.sort(key=lambda x: x[0])
@@ -231,31 +235,40 @@ def run(rep, tier, seed, selftest):
     else:
         sdesc, sobs = [], []
     runs = [trace_of(d, o) for d, o in zip(sdesc, sobs)] + [trace_of(d, o) for d, o in zip(rdesc, obs_r)]
-    failing_keys = {case_key(d) for items in failures.values() for _, d, _ in items}
+    # A run that panicked or died has no outcome line: its recording is truncated, which is a rejection by
+    # definition (and it has been reported above by its failure signature).  TLC is asked to confirm that on a
+    # few of them; all complete recordings are validated.
+    good_runs = [r_ for r_ in runs if r_[-1].get("ev") == "outcome"]
+    cut_runs = [r_ for r_ in runs if r_[-1].get("ev") != "outcome"]
+    crashed_runs = [len(cut_runs)]
     prefix = os.path.join(common.WORK, "C15-trace")
-    files = delta_util.write_traces(prefix, runs, 12)
-    crashed_runs = [0]
+    files = delta_util.write_traces(prefix, good_runs, 12)
 
     def rejected(bad, res):
         inp = bad["input"] or {}
-        if inp.get("case") in failing_keys:
-            crashed_runs[0] += 1      # a truncated recording of a run already reported by its failure signature
-            return
         rep.violation("delta-protocol", inp.get("case", "?"),
                       {"trace_file": res["file"], "first_unmatched_line": res["matched"] + 1, "unmatched_event": bad["event"],
                        "input": inp, "message": "the recorded run is not a behaviour the buffer protocol / verdict rule allows"})
 
     traces_ok, trace_events = delta_util.validate_traces("Trace_DeltaBuffers", "Trace_DeltaBuffers_rule.cfg", files, rejected,
-                                                          max_rounds=200)
-    log("[trace] %d recorded runs (%d events) validated by TLC against the buffer protocol and the verdict rule: "
-        "%d accepted, %d truncated by a crash/panic already reported" % (len(runs), trace_events, traces_ok, crashed_runs[0]))
-    good_runs = [r_ for r_ in runs if r_[-1].get("ev") == "outcome"]
+                                                          max_rounds=20)
+    truncated_rejected = None
+    if cut_runs:
+        cut_files = delta_util.write_traces(os.path.join(common.WORK, "C15-truncated"), cut_runs[:6], 6)
+        res = common.tlc_traces("Trace_DeltaBuffers", "Trace_DeltaBuffers_rule.cfg", cut_files)
+        truncated_rejected = all(not x["accepted"] for x in res)
+        if not truncated_rejected:
+            raise common.ToolError("a recording without outcome was accepted by Trace_DeltaBuffers")
+    log("[trace] %d complete recorded runs (%d events) validated by TLC against the buffer protocol and the verdict rule: "
+        "%d accepted; %d recordings truncated by a panic/crash (reported above by signature; TLC rejects them: %s)" %
+        (len(good_runs), trace_events, traces_ok, crashed_runs[0], truncated_rejected))
     strict_files = delta_util.write_traces(os.path.join(common.WORK, "C15-strict"), good_runs, 12)
     strict = common.tlc_traces("Trace_DeltaBuffers", "Trace_DeltaBuffers_strict.cfg", strict_files)
     strict_ok = sum(1 for s in strict if s["accepted"])
     for s in strict:
         if not s["accepted"]:
             rep.note_drift("strict (capacity formulas) trace validation stops at line %d of %s" % (s["matched"] + 1, s["file"]))
+    log("[time] %.0fs" % (time.time() - rep.t0))
     log("[trace] strict mode (capacity formulas of the pinned tree): %d/%d files accepted" % (strict_ok, len(strict_files)))
     # ---- 6. self-tests ---------------------------------------------------------------------------
     selftests = {}
